@@ -116,7 +116,7 @@ def install(eng):
             return v.shape[0]
         if isinstance(v, M.RangeVal):
             return v.count()
-        if type(v).__name__ == "LazySeq":
+        if type(v).__name__ in ("LazySeq", "SymList"):
             return v.length
         if isinstance(v, I.Opaque) and "len" in v.data:
             return v.data["len"]
@@ -838,12 +838,18 @@ def install(eng):
 
     @model("numpy.hstack")
     def _hstack(eng, arrs):
+        if type(arrs).__name__ == "SymList":
+            from . import lazyseq as LZ
+            return LZ.concat_symlist(eng, arrs, 1)
         arrs = stack_list(M.iterate(eng, arrs))
         arrs = [_atleast_1d(eng, a) for a in arrs]
         return concat(eng, arrs, 0 if arrs and arrs[0].ndim == 1 else 1)
 
     @model("numpy.vstack")
     def _vstack(eng, arrs):
+        if type(arrs).__name__ == "SymList":
+            from . import lazyseq as LZ
+            return LZ.concat_symlist(eng, arrs, 2)
         arrs = stack_list(M.iterate(eng, arrs))
         arrs2 = []
         for a in arrs:
